@@ -580,7 +580,7 @@ SELFTEST = [
 
 LEVEL_TEXT += ' Also (R4): the hyper connection builder is configured once before the transport switch and HTTP/1 half-close is never enabled, so HTTP and HTTPS detect a disconnect identically.'
 LEVEL_TEXT += " Also (R5): the disconnect record (log line, 499 probe) is written only for a future dropped mid-handler: the scope guard is defused on every path from the completed handler await to the response."
-LEVEL_TEXT += " Also (R6): the task mode read by the dispatch is the configured one: it is copied from the constructor's config, which every internal caller passes through unmodified. The serialising conversion of the configuration (serde `into`) carries the mode as well. Also (R7): the failure edge of the detached task's tx.send(result) passes a log record on every path; (R6) the mode of a configuration that names none is Detached."
+LEVEL_TEXT += " Also (R6): the task mode read by the dispatch is the configured one: it is copied from the constructor's config, which every internal caller passes through unmodified. The serialising conversion of the configuration (serde `into`) carries the mode as well. Also (R7): the failure edge of the detached task's tx.send(result) passes a log record on every path; (R6) the mode of a configuration that names none is Detached. Also (R6): the configuration parser refuses a mode name it does not know; (R8 = the SO_LINGER census of C17.R5): no served connection is configured for an abortive close."
 
 
 SELFTEST += [
